@@ -32,3 +32,17 @@ PROPS["C08"] = {
     "legs": [{"fam": "scanfam", "run": "^TestC08$"}],
     "timeout": {"quick": 600, "thorough": 2400},
 }
+
+PROPS["C09"] = {
+    "level": "fault_enumeration",
+    "engine": "rapid",
+    "exhaustive": {"quick": False, "thorough": False},
+    "technique": "fault injection: enumeration of every single fault and pairs of faults over the logged FS operations of rapid-generated trees, differential against the fault-free run",
+    "level_text": "For every generated small tree the fault space is enumerated rather than sampled: a fault-free probe run logs every FS operation (stat, open, k-th directory read, stat of an open file, n-th read); every single fault (operation x {permission, I/O, not-exist}) and every pair (exhaustive up to 400 pairs, else an evenly spaced sample of ~150) is injected under all 8 combinations of fatal-on-error x size limit x directory-handle mode, and the outcome is compared with the fault-free run of the same tree. The trees themselves are sampled by rapid.",
+    "level_note": "Trusted: the in-memory FS's fault plan and operation log (harness/internal/memfs), the region rule of DESIGN Appendix A.5. Faults are injected at the fs.FS interface; kernel-level partial reads are not modelled. With fatal-on-error set, whether a file-level (non-traversal) fault is fatal is not pinned by the property and not asserted.",
+    "rule": "rapid-generated trees (<=12 nodes, depth <=3, .gitignore files, symlinks) x 1..2 fake extractors; per tree every single fault over every logged operation x 3 error kinds, plus pairs, x fatal-on-error on/off x size limit off/median x ReadDirFile on/off; one evaluation per (tree, options, fault set); non-trivial = the faulted operation was actually reached AND at least one Extract call outside the failing region is still expected; distinct by (scenario hash, options, fault set)",
+    "assumptions": ["failing region of a fault = the subtree of the directory (stat/open/readdir on a directory, or an unreadable .gitignore) or the single file (open, stat of the handle, read, lazy stat)",
+                    "an extractor that loses a required file to an open/fstat/read fault must be Failed, or PartiallySucceeded when it reported inventory elsewhere"],
+    "legs": [{"fam": "scanfam", "run": "^TestC09$"}],
+    "timeout": {"quick": 900, "thorough": 3000},
+}
